@@ -38,7 +38,7 @@ PROBES = ["tool_isolated", "layout_contiguous", "layout_chunked", "layout_gzip",
           "basin_internal", "basin_file", "basin_mapped", "basin_multi_defs", "basin_via_writer", "defective_feature_dropped",
           "unknown_feature_dropped", "strip_logs", "strip_basins", "chain_compress_compress", "chain_repack_compress",
           "chain_other", "idempotence_checked", "compress_log_renamed", "condense_basin_feature", "condense_ancillary_feature",
-          "condense_internal_basin_feature", "internal_basin_shadows_computable", "tdms_converted", "realistic_size_input", "foreign_suffix_output", "empty_feature_dataset", "empty_feature_sorts_first", "empty_events_group",
+          "condense_internal_basin_feature", "internal_basin_shadows_computable", "tdms_converted", "tool_in_process", "unknown_feature_registered_later", "defective_volume_repaired_in_place", "realistic_size_input", "foreign_suffix_output", "empty_feature_dataset", "empty_feature_sorts_first", "empty_events_group",
           "basin_feature_compared", "model_input", "layout_input"]
 COMPONENTS = {
     "real": ["dclab.cli compress/repack/condense/tdms2rtdc", "dclab.rtdc_dataset.copier (rtdc_copy, h5ds_copy, basin_definition_copy)",
@@ -94,7 +94,7 @@ def plan(tier):
 
 def make_trace(seed, tier):
     r = seeds.rng(seed, "plan")
-    return {"knobs": {"chunk_bytes": r.choice(CHUNK_KNOBS)},
+    return {"knobs": {"chunk_bytes": r.choice(CHUNK_KNOBS), "inproc": r.random() < 0.5},
             "max_ops": r.choice([3, 5, 7, 9]),
             "tdms": r.randrange(3) if r.random() < 0.10 else None,
             "ops": None}
@@ -326,6 +326,16 @@ class World:
         if self.t.get("tdms") is not None and not self.tdms_done and r.random() < 0.35:
             self.tdms_done = True
             return {"k": "tdms", "fx": self.t["tdms"], "skip_i": r.random() < 0.7, "skip_f": r.random() < 0.7}
+        follow = getattr(self, "follow_up", None)
+        self.follow_up = None
+        if follow is not None and follow < len(self.files) and r.random() < 0.8:
+            # the same path is copied again after it (or the feature registry) changed
+            tool = r.choice(["compress", "repack"])
+            return {"k": "tool", "src": follow, "tool": tool, "opts": {}, "again": False, "outname": "plain"}
+        if nf and r.random() < 0.05:
+            return {"k": "register", "src": r.randrange(1 << 16), "first": r.random() < 0.7}
+        if nf and r.random() < 0.05:
+            return {"k": "repair", "src": r.randrange(1 << 16), "first": r.random() < 0.7}
         shadow = [i for i, f in enumerate(self.files) if f.get("shadow")]
         if shadow and r.random() < 0.4:
             # a file whose internal basin holds a feature that could also be computed: condense it, mostly without
@@ -345,6 +355,58 @@ class World:
 
     def execute(self, op):
         getattr(self, "do_" + op["k"])(op)
+
+    def _copy_first(self, idx):
+        """a tool run on the file before it changes (what it then decides must not stick to the path)"""
+        self.do_tool({"k": "tool", "src": idx, "tool": "compress", "opts": {}, "again": False, "outname": "plain"})
+
+    def do_register(self, op):
+        """A feature name that dclab did not know becomes a registered temporary feature in the middle of the session."""
+        import dclab
+        import h5py
+        ctx = self.ctx
+        reg = getattr(self, "registered", set())
+        cands = []
+        for i, f in enumerate(self.files):
+            with h5py.File(self.dir / f["name"], "r") as h:
+                names = [u for u in UNKNOWN_FEATURES if u in h.get("events", {}) and u not in reg]
+            if names:
+                cands.append((i, names))
+        if not cands:
+            return
+        i, names = cands[op["src"] % len(cands)]
+        if op.get("first"):
+            self._copy_first(i)
+        name = names[0]
+        dclab.register_temporary_feature(name)
+        self.registered = reg | {name}
+        self.follow_up = i
+        ctx.probe("unknown_feature_registered_later")
+        ctx.log("p", f"register {name}")
+
+    def do_repair(self, op):
+        """A file whose volume counts as defective is repaired in place the documented way (marker log dclab_issue_141)."""
+        import h5py
+        ctx = self.ctx
+        cands = []
+        for i, f in enumerate(self.files):
+            with h5py.File(self.dir / f["name"], "r") as h:
+                ev = h.get("events", {})
+                logs = list(h["logs"].keys()) if "logs" in h else []
+                version = dec(h.attrs.get("setup:software version", ""))
+                f32 = "time" in ev and isinstance(ev["time"], h5py.Dataset) and ev["time"].dtype == np.float32
+                if "volume" in model_defective(version, list(ev.keys()), dict(h.attrs), f32, logs):
+                    cands.append(i)
+        if not cands:
+            return
+        i = cands[op["src"] % len(cands)]
+        if op.get("first"):
+            self._copy_first(i)
+        with h5py.File(self.dir / self.files[i]["name"], "a") as h:
+            h.require_group("logs").create_dataset("dclab_issue_141", data=np.array([b"volume recomputed"], dtype="S100"))
+        self.follow_up = i
+        ctx.probe("defective_volume_repaired_in_place")
+        ctx.log("p", f"repair {self.files[i]['name']}")
 
     # ---------------- make: dclab writer ----------------
     def do_model(self, op):
@@ -661,6 +723,26 @@ class World:
         import threading
         import traceback
         ctx = self.ctx
+        if self.t["knobs"].get("inproc") and crash_what is None:
+            # the task is called as a library function of the long-lived process (as GUIs do): whatever dclab memoises at
+            # module level survives from one call to the next.  Files with the crash-prone layout stay isolated.
+            ctx.probe("tool_in_process")
+            try:
+                with quiet():
+                    fn()
+            except Exception as e:
+                where = "?"
+                for fs in reversed(traceback.extract_tb(e.__traceback__)):
+                    if "/dclab/" in fs.filename:
+                        where = fs.filename.split("/dclab/", 1)[1] + ":" + fs.name
+                        break
+                sg = dict(sig)
+                if sg.get("what") == "other":
+                    sg.update({"exc": type(e).__name__, "where": where})
+                tb = "".join(traceback.format_exception(type(e), e, e.__traceback__))[-1200:]
+                ctx.violation(oracle, f"{label}: unexpected {type(e).__name__}: {str(e)[:300]}\n{tb}", sig=sg, fatal=False)
+                return "raised " + type(e).__name__
+            return "ok"
         ctx.probe("tool_isolated")
         for t in threading.enumerate():   # (basin availability checkers of closed datasets: let them finish before forking)
             if t is not threading.current_thread():
@@ -855,7 +937,7 @@ class World:
             version = dec(iattrs.get("setup:software version", ""))
             f32 = "time" in inames and isinstance(iev["time"], h5py.Dataset) and iev["time"].dtype == np.float32
             defective = model_defective(version, inames, iattrs, f32, lognames)
-            unknown = {f for f in inames if f in UNKNOWN_FEATURES}
+            unknown = {f for f in inames if f in UNKNOWN_FEATURES and f not in getattr(self, "registered", set())}
             empty = {f for f in inames if isinstance(iev[f], h5py.Dataset) and iev[f].shape[0] == 0}
             stripped = {f for f in inames if re.match(r"^basinmap[0-9]+$", f)} if strip_basins else set()
             expected = set(inames) - defective - unknown - stripped
